@@ -805,6 +805,14 @@ func (w *World) strLitDecl(s string) []string {
 			lines = append(lines, fmt.Sprintf("(assert (= (sat! %s %d) %d))", n, i, s[i]))
 		}
 	}
+	if len(s) <= 32 {
+		// strings are values: any string spelling this literal IS this literal
+		conds := []string{fmt.Sprintf("(= (slen! s) %d)", len(s))}
+		for i := 0; i < len(s); i++ {
+			conds = append(conds, fmt.Sprintf("(= (sat! s %d) %d)", i, s[i]))
+		}
+		lines = append(lines, fmt.Sprintf("(assert (forall ((s Int)) (! (=> (and %s) (= s %s)) :pattern ((slen! s)))))", strings.Join(conds, " "), n))
+	}
 	return lines
 }
 
